@@ -97,6 +97,29 @@ fn oracle_suite<S: ShortGroupSignatureScheme>(em: &mut Emitter, rng: &mut Rng, s
             if sig.verify(&pk2, &msgs).is_ok() {
                 em.violation("signature-verifies-under-other-key", format!("{}: signature verifies under another key (n={})", suite, n), replay.clone());
             }
+            // a vector of another length: surplus messages appended (beyond the key's capacity), the last one dropped
+            for extra in 1..=2usize {
+                let mut m2 = msgs.clone();
+                for _ in 0..extra {
+                    m2.push(rng.scalar());
+                }
+                if matches!(call_total(|| sig.verify(&pk, &m2).is_ok()), Out::Ok(true)) {
+                    em.violation("signature-verifies-with-surplus-messages", format!("{}: signature over {} messages verifies for that vector with {} more appended", suite, n, extra), replay.clone());
+                }
+                let mut m3 = msgs.clone();
+                for _ in 0..extra {
+                    m3.push(Scalar::ZERO);
+                }
+                if matches!(call_total(|| sig.verify(&pk, &m3).is_ok()), Out::Ok(true)) {
+                    em.violation("signature-verifies-with-surplus-messages", format!("{}: signature over {} messages verifies for that vector with {} zero messages appended", suite, n, extra), replay.clone());
+                }
+            }
+            if n >= 2 && !bool::from(msgs[n - 1].is_zero()) {
+                let m4 = msgs[..n - 1].to_vec();
+                if matches!(call_total(|| sig.verify(&pk, &m4).is_ok()), Out::Ok(true)) {
+                    em.violation("signature-verifies-with-missing-message", format!("{}: signature over {} messages verifies with the last message dropped", suite, n), replay.clone());
+                }
+            }
             for i in 0..n {
                 let mut m2 = msgs.clone();
                 m2[i] += Scalar::ONE;
